@@ -895,6 +895,28 @@ pub fn check(id: u32, cfg: &RunCfg, findings: &Findings) -> Report {
   rep
 }
 
+// Prints what the real mapper answers at every step of a replay file's case (triage aid).
+pub fn trace(file: &str) -> Result<(), Violation> {
+  let text = std::fs::read_to_string(file).map_err(|e| Violation::new("io", format!("cannot read {}: {}", file, e)))?;
+  let v: Value = serde_json::from_str(&text).map_err(|e| Violation::new("io", e.to_string()))?;
+  let case = MapperCase::from_json(v.get("case").unwrap_or(&v)).map_err(|e| Violation::new("io", e))?;
+  println!("layout: {}", layout_text(&case.layout));
+  let mut mapper = Mapper::for_layout(&case.layout);
+  for (i, step) in case.steps.iter().enumerate() {
+    match step {
+      Step::Ev(e) => {
+        let r = mapper.step(e.clone());
+        println!("{:4} {:<14} -> [{}] repeat {:?}   state {}", i, step_text(step), evs_text(&r.events), r.repeat, mapper.verif_fingerprint());
+      }
+      Step::ReleaseAll => {
+        let evs = mapper.release_all();
+        println!("{:4} release_all    -> [{}]", i, evs_text(&evs));
+      }
+    }
+  }
+  Ok(())
+}
+
 pub fn replay(id: u32, file: &str, findings: &Findings) -> Result<(), Violation> {
   let text = std::fs::read_to_string(file).map_err(|e| Violation::new("io", format!("cannot read {}: {}", file, e)))?;
   let v: Value = serde_json::from_str(&text).map_err(|e| Violation::new("io", e.to_string()))?;
